@@ -36,7 +36,7 @@ class RBook:
             return planted(s, c, r)
         return None
 
-    def sheets(self):
+    def sheets(self, omit=()):
         """formulas of sheet s sit in a far column (index 40 + w) of that sheet, one per row from row 1: unprefixed references see the planted cells of
         their own sheet, and no generated reference ever touches a formula cell"""
         out, self.fpos = [], {}
@@ -48,7 +48,7 @@ class RBook:
             width = fc + 1 if mine else self.w[s]
             rows = [[self.value(s, c, r) for c in range(self.w[s])] + [None] * (width - self.w[s]) for r in range(nrows)]
             for k, i in enumerate(mine):
-                rows[k][fc] = self.formulas[i][1]
+                rows[k][fc] = None if i in omit else self.formulas[i][1]
                 self.fpos[i] = (s, fc, k)
             out.append((self.titles[s], rows))
             self.total_rows.append(nrows)
@@ -118,7 +118,8 @@ def run(tier, seed):
     chk.rule = ('workbooks of 2-5 sheets (titles plain, spaced, with apostrophes / ! / quotes, non-ASCII, digit-leading, cell-like A1, keyword-like SUM/IF/TRUE, area-like; random '
                 'order; one sheet up to 16384 columns wide) whose every cell holds a number encoding (sheet, column, row), with holes; formulas on every sheet: single cells, '
                 'row / column / rectangular / single-cell areas, areas reaching beyond the used range, whole-column areas, all $ forms, bare / plain-title / quoted-title '
-                'prefixes (apostrophes doubled), columns at 26-boundaries up to XFD, rows to 5 digits, wrapped in SUM / COUNT / INDEX; unknown titles. Oracle: decode the '
+                'prefixes (apostrophes doubled), columns at 26-boundaries up to XFD, rows to 5 digits, wrapped in SUM / COUNT / INDEX; the same unprefixed text repeated on other sheets; unknown titles; every formula evaluated through three '
+                'routes: class translated from its own cell, class of the whole workbook, whole-workbook class with 2-5 cells (holes and blank rows included) overridden. Oracle: decode the '
                 'planted numbers (Python) and the Lean model of fetch / get_matrix (same request). distinct = distinct (workbook, formula)')
     chk.assumptions += ['reference spellings are lexed by the repository\'s regexes, which are not modelled in Lean (Tie B only: the value observed through the public API)',
                         'reversed corners (B2:A1), 3-D references and defined names are outside the grammar and not generated']
@@ -140,6 +141,14 @@ def run(tier, seed):
                 continue
             seen.add((own, text))
             plan.append((own, text, kind, payload))
+        # the same unprefixed text on another sheet denotes the cells of THAT sheet
+        narrow = [k for k in range(book.ns) if book.w[k] <= 6]
+        for own, text, kind, payload in list(plan):
+            if kind in ('cell', 'area', 'sum', 'count', 'index', 'cols', 'colindex') and payload[0] == own and '!' not in text and len(narrow) > 1 and rng.random() < 0.35:
+                other = rng.choice([k for k in narrow if k != own])
+                if (other, text) not in seen:
+                    seen.add((other, text))
+                    plan.append((other, text, kind, (other,) + tuple(payload[1:])))
         book.formulas = [(own, text) for own, text, _, _ in plan]
         sheets = book.sheets()
         dims = []
@@ -152,57 +161,101 @@ def run(tier, seed):
                 for c in range(book.w[s]):
                     holes.add((s, c, r))
         head = [str(book.ns)] + dims + [str(len(holes))] + [str(x) for hh in sorted(holes) for x in hh]
+        # three routes to the value of every formula: (a) the class translated from the formula's own cell, (b) the class of the whole
+        # workbook (all formulas of all sheets translated together), (c) the whole-workbook class with some cells overridden
+        try:
+            # formulas naming a sheet that does not exist make the whole translation fail, as they must: they are left out here
+            sheets_known = book.sheets(omit={i for i, p in enumerate(plan) if p[2] == 'unknown'})
+            whole = realcode.executor_for(realcode.load_class(realcode.translate(sheets_known, None)))
+            whole_err = None
+        except Exception as e:  # noqa
+            whole, whole_err = None, 'E' + core.exc_class(e)
+        over = {}
+        for _ in range(rng.randint(2, 5)):
+            s = rng.randrange(book.ns)
+            if book.w[s] > 6:
+                continue
+            c, r = rng.randrange(book.w[s]), rng.randrange(book.total_rows[s])
+            over[(s, c, r)] = 5 * 10 ** 15 + len(over) * 1000 + rng.randrange(1000)
+        over_ex = None
+        if whole is not None:
+            over_ex = realcode.executor_for(realcode.load_class(realcode.translate(sheets_known, None)))
+            over_ex.set_cells([Cell(book.titles[s] if rng.random() < 0.5 else s, c, r, v) for (s, c, r), v in over.items()])
         for i, (own, text, kind, payload) in enumerate(plan):
             pos = book.fpos[i]
 
             def evaluate():
                 cls = realcode.load_class(realcode.translate(sheets, entry=pos))
                 return realcode.executor_for(cls).get_cell(Cell(*pos)).value
-            got = core.outcome(evaluate)
-            chk.count('kind:' + kind)
-            meta = {'formula': text, 'on_sheet': book.titles[own], 'titles': book.titles, 'kind': kind}
-            if kind == 'unknown':
-                chk.seen((b, own, text))
-                if not (got.startswith('E') and got[1:] in ('Cell', 'Parser')):
-                    chk.violation(dict(meta, why='a reference to a sheet title that does not exist is not rejected', impl=got, stream='unknown-title'))
-                continue
-            if kind == 'cell':
-                s, c, r = payload
-                cases.append(('rf ' + ' '.join(head + ['cell', str(s), str(c), str(r)]), got, meta))
-                v = book.value(s, c, r)
-                want = 'B' if v is None else 'I%d' % v
-                if got != want:
-                    chk.violation(dict(meta, why='a cell reference does not evaluate to the cell at those coordinates on that sheet', impl=got, want=want, stream='oracle'))
-            elif kind == 'area':
-                s, c1, r1, c2, r2 = payload
-                cases.append(('rf ' + ' '.join(head + ['mx'] + [str(x) for x in payload]), got, meta))
-                want = core.enc([[book.value(s, c, r) if book.value(s, c, r) is not None else BLANK for c in range(c1, c2 + 1)] for r in range(r1, r2 + 1)])
-                if got != want:
-                    chk.violation(dict(meta, why='an area does not evaluate to exactly its coordinates in row-major order', impl=got[:300], want=want[:300], stream='oracle'))
-            elif kind in ('sum', 'count', 'index'):
-                s, c1, r1, c2, r2 = payload[:5]
-                vals = [[book.value(s, c, r) for c in range(c1, c2 + 1)] for r in range(r1, r2 + 1)]
-                flat = [v for row in vals for v in row if v is not None]
-                if kind == 'sum':
-                    want = 'I%d' % sum(flat)
-                elif kind == 'count':
-                    want = 'I%d' % len(flat)
-                else:
-                    v = vals[payload[5] - 1][payload[6] - 1]
+            routes = [('entry', core.outcome(evaluate), book.value)]
+            if whole is not None and kind != 'unknown':
+                routes.append(('whole', core.outcome(lambda: whole.get_cell(Cell(*pos)).value), book.value))
+                routes.append(('override', core.outcome(lambda: over_ex.get_cell(Cell(*pos)).value),
+                               lambda s, c, r: over.get((s, c, r), book.value(s, c, r))))
+            elif kind != 'unknown':
+                if i == 0:
+                    chk.violation({'why': 'the whole workbook does not translate although every formula translates on its own', 'impl': whole_err, 'titles': book.titles,
+                                   'stream': 'whole-workbook'})
+            for route, got, valuefn in routes:
+                chk.count('kind:' + kind)
+                chk.count('route:' + route)
+                meta = {'formula': text, 'on_sheet': book.titles[own], 'titles': book.titles, 'kind': kind, 'route': route}
+                if route == 'override':
+                    meta['overrides'] = {'%s!%s%d' % (book.titles[s], col_letters(c + 1), r + 1): v for (s, c, r), v in over.items()}
+                if kind == 'unknown':
+                    chk.seen((b, own, text, route))
+                    if not (got.startswith('E') and got[1:] in ('Cell', 'Parser')):
+                        chk.violation(dict(meta, why='a reference to a sheet title that does not exist is not rejected', impl=got, stream='unknown-title'))
+                    continue
+                model_ok = route != 'override'          # the Lean request describes the workbook as stored
+                blank = lambda v: BLANK if v is None else v
+                if kind == 'cell':
+                    s, c, r = payload
+                    if model_ok:
+                        cases.append(('rf ' + ' '.join(head + ['cell', str(s), str(c), str(r)]), got, meta))
+                    v = valuefn(s, c, r)
                     want = 'B' if v is None else 'I%d' % v
-                chk.seen((b, own, text))
-                if got != want:
-                    chk.violation(dict(meta, why='%s over an area does not see exactly the cells of the area' % kind.upper(), impl=got, want=want, stream='oracle'))
-            elif kind in ('cols', 'colindex'):
-                s, c1, c2 = payload
-                if kind == 'cols':
-                    cases.append(('rf ' + ' '.join(head + ['cols', str(s), str(c1), str(c2)]), got, meta))
-                else:
-                    v = book.value(s, c2, 0)
-                    want = 'B' if v is None else 'I%d' % v
-                    chk.seen((b, own, text))
                     if got != want:
-                        chk.violation(dict(meta, why='INDEX over a whole-column area does not address row 1 of the last column', impl=got, want=want, stream='oracle'))
+                        chk.violation(dict(meta, why='a cell reference does not evaluate to the current value of the cell at those coordinates on that sheet', impl=got, want=want,
+                                           stream='oracle'))
+                elif kind == 'area':
+                    s, c1, r1, c2, r2 = payload
+                    if model_ok:
+                        cases.append(('rf ' + ' '.join(head + ['mx'] + [str(x) for x in payload]), got, meta))
+                    want = core.enc([[blank(valuefn(s, c, r)) for c in range(c1, c2 + 1)] for r in range(r1, r2 + 1)])
+                    if got != want:
+                        chk.violation(dict(meta, why='an area does not evaluate to exactly its coordinates in row-major order', impl=got[:300], want=want[:300], stream='oracle'))
+                elif kind in ('sum', 'count', 'index'):
+                    s, c1, r1, c2, r2 = payload[:5]
+                    vals = [[valuefn(s, c, r) for c in range(c1, c2 + 1)] for r in range(r1, r2 + 1)]
+                    flat = [v for row in vals for v in row if v is not None]
+                    if kind == 'sum':
+                        want = 'I%d' % sum(flat)
+                    elif kind == 'count':
+                        want = 'I%d' % len(flat)
+                    else:
+                        v = vals[payload[5] - 1][payload[6] - 1]
+                        want = 'B' if v is None else 'I%d' % v
+                    chk.seen((b, own, text, route))
+                    if got != want:
+                        chk.violation(dict(meta, why='%s over an area does not see exactly the cells of the area' % kind.upper(), impl=got, want=want, stream='oracle'))
+                elif kind in ('cols', 'colindex'):
+                    s, c1, c2 = payload
+                    if kind == 'cols':
+                        if model_ok:
+                            cases.append(('rf ' + ' '.join(head + ['cols', str(s), str(c1), str(c2)]), got, meta))
+                        else:
+                            want = core.enc([[blank(valuefn(s, c, r)) for c in range(c1, c2 + 1)] for r in range(book.total_rows[s])])
+                            chk.seen((b, own, text, route))
+                            if got != want:
+                                chk.violation(dict(meta, why='a whole-column area does not evaluate to the current values of its columns', impl=got[:300], want=want[:300],
+                                                   stream='oracle'))
+                    else:
+                        v = valuefn(s, c2, 0)
+                        want = 'B' if v is None else 'I%d' % v
+                        chk.seen((b, own, text, route))
+                        if got != want:
+                            chk.violation(dict(meta, why='INDEX over a whole-column area does not address row 1 of the last column', impl=got, want=want, stream='oracle'))
     chk.judge('references', cases, sample_cap=4)
     externals(chk)
     return chk.finish()
